@@ -1,10 +1,44 @@
 import PewDriver.Util
+import PewModel.Effects
 open Lean
 namespace PewDriver.C19
-open PewDriver
+open PewDriver Pew.Effects
 
-def handle (op : String) (_req : Json) : R Json := do
+def parseSrc (j : Json) : R Src := do
+  let a ← asArr j
+  match a with
+  | [.str "param", i] => do pure (.param (← asNat i))
+  | [.str "fresh"] => pure .fresh
+  | [.str "alias", ys] => do pure (.alias (← asList asNat ys))
+  | [.str "unknown"] => pure .unknown
+  | _ => throw s!"bad src {j.compress}"
+
+partial def parseStmt (j : Json) : R Stmt := do
+  let a ← asArr j
+  match a with
+  | [.str "skip"] => pure .skip
+  | [.str "bind", x, s] => do pure (.bind (← asNat x) (← parseSrc s))
+  | [.str "write", x] => do pure (.write (← asNat x))
+  | [.str "ret", x] => do pure (.ret (← asNat x))
+  | [.str "seq", ss] => do
+      let l ← asArr ss
+      let l ← l.mapM parseStmt
+      pure (l.foldr (fun s acc => Stmt.seq s acc) .skip)
+  | [.str "branch", s, t] => do pure (.branch (← parseStmt s) (← parseStmt t))
+  | [.str "loop", b] => do pure (.loop (← parseStmt b))
+  | _ => throw s!"bad stmt {j.compress.take 80}"
+
+def dedupSort (l : List Nat) : List Nat := (l.eraseDups.toArray.qsort (· < ·)).toList
+
+def handle (op : String) (req : Json) : R Json := do
   match op with
+  | "c19.analyse" =>
+    let np ← getNat req "np"
+    let prog ← fld req "prog" >>= parseStmt
+    let a := ana np prog A.empty
+    pure (jObj [("write", jList jNat (dedupSort (a.report np))),
+                ("ret", jList jNat (dedupSort (a.reportRet np))),
+                ("top", jBool a.top)])
   | _ => throw s!"unknown op {op}"
 
 end PewDriver.C19
